@@ -389,8 +389,8 @@ func V(prop, key, what string, c interface{}) Violation {
 
 // Stat is a free-form counter record: the driver sums numeric fields with equal names.
 type Stat struct {
-	Kind   string             `json:"kind"` // "stat"
-	Counts map[string]int     `json:"counts,omitempty"`
+	Kind   string              `json:"kind"` // "stat"
+	Counts map[string]int      `json:"counts,omitempty"`
 	Sets   map[string][]string `json:"sets,omitempty"` // union-ed by the driver
 }
 
